@@ -73,18 +73,19 @@ def _run(ctx):
     meta = u.run_harness(ctx, "c18", ob_failed)
     model_bad, prop_bad, res = ([], [], {})
     if meta:
-        model_bad, prop_bad, res = u.eval_shards(ctx, meta, ob_failed, {"vcases": "vcases.jsonl", "ecases": "ecases.jsonl", "ucases": "ucases.jsonl"},
+        model_bad, prop_bad, res = u.eval_shards(ctx, meta, ob_failed, {"vcases": "vcases.jsonl", "ecases": "ecases.jsonl", "ucases": "ucases.jsonl", "fcases": "fcases.jsonl"},
                                                    idents=("M", "P", "B"))
 
     def replay_of(kc):
         kind, case = kc
         d = {k: v for k, v in case.items() if k not in ("_obs", "_i")}
-        d["kind"] = {"vcases": "modifier", "ecases": "e2e", "ucases": "stacks"}[kind]
+        d["kind"] = {"vcases": "modifier", "ecases": "e2e", "ucases": "stacks", "fcases": "fresh-instance"}[kind]
         d["observed"] = case.get("_obs")
         return d
 
     for kind, label, classify in (("vcases", "modifier", classify_modifier), ("ecases", "e2e", classify_e2e),
-                                  ("ucases", "stacks", lambda c: "stacks-instance-tags-not-unique")):
+                                  ("ucases", "stacks", lambda c: "stacks-instance-tags-not-unique"),
+                                  ("fcases", "fresh-instance", lambda c: "fresh-instance-concurrent-first-requests-get-different-tags")):
         pb = [kc for kc in prop_bad if kc[0] == kind]
         mb = [kc for kc in model_bad if kc[0] == kind]
         groups = {}
@@ -117,7 +118,7 @@ def _run(ctx):
         if shard.startswith("vcases") and isinstance(r, dict) and r.get("B"):
             for i, v in enumerate(ctx.parse_nlist(r["B"])[:3]):
                 branches[i] += v
-    evals = int(meta.get("modifier_cases", 0)) + int(meta.get("e2e_cases", 0)) + int(meta.get("stack_tags_observed", 0))
+    evals = int(meta.get("modifier_cases", 0)) + int(meta.get("e2e_cases", 0)) + int(meta.get("stack_tags_observed", 0)) + 8 * int(meta.get("fresh_instances_raced", 0))
     nontriv = branches[1] + branches[2] + int(meta.get("e2e_cases", 0))
     ob_names, ob_done = u.table_obligations("Ob18.v", info)
     coverage = {
